@@ -1,3 +1,146 @@
+import Pw.Lemmas.Backend
 import Pw.Model.Serve
+import Pw.Model.Writer
+/-
+  C02 — every byte the server sends is a well-formed backend message.
+
+  The model emits *structured* messages (`BMsg`) and the wire bytes are `BMsg.encode`
+  (type byte, length = 4 + body, body built like the Go builder functions).  The theorems
+  here show that the strict grammar parser — the oracle run on the implementation's real
+  output — inverts that encoding for every well-formed message and every sequence of them,
+  whatever follows or precedes; and that the model's whole output has exactly this shape.
+-/
 namespace Pw.Props.C02
+open Pw
+
+/-- builder lemma, all fourteen message types at once: the strict body grammar accepts what
+    the builder wrote and recovers exactly the structured message -/
+theorem C02_roundtrip (m : BMsg) (h : m.WF) : parseBody m.tag m.body = some m := by
+  cases m with
+  | auth s =>
+    simp only [BMsg.WF] at h
+    simp [parseBody, BMsg.tag, BMsg.body, ch, rd32_be32 s h []]
+    have := rd32_be32 s h []
+    simp at this
+    simp [this]
+  | paramStatus k v =>
+    obtain ⟨hk, hv⟩ := h
+    simp [parseBody, BMsg.tag, BMsg.body, ch]
+    have h1 : cstr (k ++ 0 :: (v ++ [0])) = some (k, v ++ [0]) := cstr_append k hk _
+    have h2 : cstr (v ++ [0]) = some (v, []) := cstr_append v hv []
+    simp [h1, h2]
+  | ready s => simp [parseBody, BMsg.tag, BMsg.body, ch]
+  | error b =>
+    simp only [BMsg.WF] at h
+    simp [parseBody, BMsg.tag, BMsg.body, ch]
+    cases hp : parseErrFields (b.length + 1) b with
+    | none => simp [hp] at h
+    | some _ => simp
+  | rowDesc cols =>
+    obtain ⟨hl, hc⟩ := h
+    simp [parseBody, BMsg.tag, BMsg.body, ch, rd16_be16 _ hl, parseColDescs_enc cols hc]
+  | dataRow fs =>
+    obtain ⟨hl, hf⟩ := h
+    simp [parseBody, BMsg.tag, BMsg.body, ch, rd16_be16 _ hl, parseFields_enc fs hf]
+  | complete t =>
+    simp only [BMsg.WF] at h
+    have h1 : cstr (t ++ [0]) = some (t, []) := cstr_append t h []
+    simp [parseBody, BMsg.tag, BMsg.body, ch, h1]
+  | emptyQuery => simp [parseBody, BMsg.tag, BMsg.body, ch]
+  | parseComplete => simp [parseBody, BMsg.tag, BMsg.body, ch]
+  | bindComplete => simp [parseBody, BMsg.tag, BMsg.body, ch]
+  | closeComplete => simp [parseBody, BMsg.tag, BMsg.body, ch]
+  | noData => simp [parseBody, BMsg.tag, BMsg.body, ch]
+  | paramDesc oids =>
+    obtain ⟨hl, ho⟩ := h
+    simp [parseBody, BMsg.tag, BMsg.body, ch, rd16_be16 _ hl, parseOids_enc oids ho]
+  | copyIn f n =>
+    obtain ⟨hf, hn⟩ := h
+    have hf' : (UInt8.ofNat f).toNat = f := by simp [UInt8.toNat_ofNat']; omega
+    simp [parseBody, BMsg.tag, BMsg.body, ch, rd16_be16 _ hn, parseFmts_replicate n f (by omega), hf']
+
+/-- helper: enough fuel parses any concatenation of encoded well-formed messages -/
+theorem parseBackendAux_encode (ms : List BMsg)
+    (h : ∀ m ∈ ms, m.WF ∧ m.body.length + 4 < 4294967296) :
+    ∀ fuel, ms.length ≤ fuel → parseBackendAux fuel (ms.flatMap BMsg.encode) = some ms := by
+  induction ms with
+  | nil => intro fuel _; cases fuel <;> simp [parseBackendAux]
+  | cons m ms ih =>
+    intro fuel hfuel
+    obtain ⟨hwf, hlen⟩ := h m (by simp)
+    have hms : ∀ m ∈ ms, m.WF ∧ m.body.length + 4 < 4294967296 := fun m' hm' => h m' (by simp [hm'])
+    cases fuel with
+    | zero => simp at hfuel
+    | succ fuel =>
+      have hfuel' : ms.length ≤ fuel := by simpa using hfuel
+      simp only [List.flatMap_cons, BMsg.encode, frame, List.cons_append, List.append_assoc, parseBackendAux]
+      rw [rd32_be32 _ hlen]
+      have h4 : ¬ (m.body.length + 4 < 4) := by omega
+      simp only [h4, if_false, Nat.add_sub_cancel, List.length_append]
+      have h5 : ¬ (m.body.length + (List.flatMap BMsg.encode ms).length < m.body.length) := by omega
+      rw [if_neg h5, List.take_left' rfl, List.drop_left' rfl, C02_roundtrip m hwf, ih hms fuel hfuel']
+      rfl
+
+/-- **C02 (stream form).** Any sequence of well-formed messages, encoded and concatenated,
+    is accepted by the strict parser, which returns exactly that sequence: the output is a
+    concatenation of complete messages, each with a known type byte, length = 4 + body and a
+    body that parses exactly under its type's grammar. -/
+theorem C02_stream (ms : List BMsg) (h : ∀ m ∈ ms, m.WF ∧ m.body.length + 4 < 4294967296) :
+    parseBackend (ms.flatMap BMsg.encode) = some ms := by
+  unfold parseBackend
+  apply parseBackendAux_encode ms h
+  -- every encoded message is at least five bytes long
+  clear h
+  induction ms with
+  | nil => simp
+  | cons m ms ih =>
+    have : (BMsg.encode m).length = m.body.length + 5 := by simp [BMsg.encode, frame]; omega
+    simp only [List.flatMap_cons, List.length_append, List.length_cons, this]
+    omega
+
+/-- the model's complete output: the optional SSL reply byte, then encoded messages only -/
+theorem C02_model_output_shape (cfg : Config) (h : Handlers) (inp tin : Bytes) :
+    let r := serve cfg h inp tin
+    r.out.flatten = (match r.ssl with | some b => [b] | none => []) ++ r.msgs.flatMap BMsg.encode := by
+  intro r
+  unfold Result.out
+  cases r.ssl <;> simp [List.flatMap]
+
+/-- **C02 (abandoned frames).** Whatever state an earlier, abandoned or failed message left the
+    writer in (a half-built DataRow after an encode failure, a set latch), `Start t`, any
+    sequence of `Add*` calls and `End` hand exactly one complete message `frame t body` to the
+    connection and leave the writer empty: partial bytes never reach the next message. -/
+theorem C02_abandon (w0 : Writer) (t : UInt8) (adds : List Bytes) :
+    ((adds.foldl (fun w b => w.add b) (w0.start t)).finish) =
+      some (some (frame t adds.flatten), { frame := [], err := false }) := by
+  have key : ∀ (adds : List Bytes) (acc : Bytes),
+      adds.foldl (fun w b => Writer.add b w) { frame := [t, 0, 0, 0, 0] ++ acc, err := false }
+        = { frame := [t, 0, 0, 0, 0] ++ acc ++ adds.flatten, err := false } := by
+    intro adds
+    induction adds with
+    | nil => intro acc; simp
+    | cons a as ih =>
+      intro acc
+      have h1 : Writer.add a { frame := [t, 0, 0, 0, 0] ++ acc, err := false }
+          = { frame := [t, 0, 0, 0, 0] ++ (acc ++ a), err := false } := by simp [Writer.add]
+      rw [List.foldl_cons, h1, ih (acc ++ a)]
+      simp
+  have h0 := key adds []
+  simp only [List.append_nil] at h0
+  simp only [Writer.start, h0, Writer.finish, Writer.reset, frame]
+  simp
+
+/-- non-vacuity: a concrete non-trivial reply stream satisfies the hypotheses and parses -/
+example :
+    let ms : List BMsg := [.auth 0, .paramStatus [117, 115, 101, 114] [98, 111, 98], .ready 73,
+      .rowDesc [({ name := [105, 100], oid := 23 }, 0)], .dataRow [some [52, 50], none],
+      .complete [83, 69, 76, 69, 67, 84, 32, 49], .error [83, 69, 0, 67, 52, 50, 0, 77, 120, 0, 0], .ready 73]
+    parseBackend (ms.flatMap BMsg.encode) = some ms := by
+  intro ms
+  apply C02_stream
+  intro m hm
+  simp only [ms, List.mem_cons, List.mem_nil_iff, or_false] at hm
+  rcases hm with rfl | rfl | rfl | rfl | rfl | rfl | rfl | rfl <;>
+    refine ⟨?_, by decide⟩ <;> simp [BMsg.WF, nulFree] <;> first | decide | (constructor <;> simp [nulFree])
+
 end Pw.Props.C02
